@@ -198,18 +198,18 @@ func init() {
 		Name: "ccall-2", Props: []string{"C17"}, MustFinish: true, ObsNames: stdObs,
 		Doc:   "CallConcurrently with 2 functions, every outcome pair over {nil entry, nil, E1, E2, Canceled, park-until-cancelled}, live caller context",
 		Quick: eng.Bounds{PB: 2}, Thorough: eng.Bounds{PB: 4},
-		Body:  ccallBody(2, false, 6),
+		Body: ccallBody(2, false, 6),
 	})
 	eng.Register(&eng.Scenario{
 		Name: "ccall-2c", Props: []string{"C17"}, MustFinish: true, ObsNames: stdObs,
 		Doc:   "CallConcurrently with 2 functions and a caller-cancel thread",
 		Quick: eng.Bounds{PB: 2}, Thorough: eng.Bounds{PB: 3},
-		Body:  ccallBody(2, true, 6),
+		Body: ccallBody(2, true, 6),
 	})
 	eng.Register(&eng.Scenario{
 		Name: "ccall-3", Props: []string{"C17"}, MustFinish: true, ObsNames: stdObs,
 		Doc:   "CallConcurrently with 3 functions, every outcome triple, live caller context",
 		Quick: eng.Bounds{PB: 1}, Thorough: eng.Bounds{PB: 2},
-		Body:  ccallBody(3, false, 6),
+		Body: ccallBody(3, false, 6),
 	})
 }
